@@ -48,7 +48,11 @@ def audit(ctx, rep):
     if f.api.get('unsafe_fns', 0) != 0:
         rep.machinery('AUDIT fatfs declares unsafe fns: call graph completeness is no longer guaranteed')
     if f.api.get('indirect_calls', 0) != 0:
-        rep.machinery('AUDIT fatfs contains calls through function pointers (%d)' % f.api['indirect_calls'])
+        # resolved to the functions the program itself turns into pointers (model.Facts); anything else is unknown code
+        sites = {k: v for k, v in f.indirect_sites.items() if k[0].startswith(('fatfs::', '<fatfs::'))}
+        if len(sites) < f.api['indirect_calls'] or not all(sites.values()):
+            rep.machinery('AUDIT fatfs contains calls through function pointers that no reified function of the program '
+                          'matches (%d sites, %d resolved)' % (f.api['indirect_calls'], sum(1 for v in sites.values() if v)))
     if ctx.effects.n_dev_leaves < 4:
         rep.machinery('AUDIT device leaves missing from the instance graph (%d)' % ctx.effects.n_dev_leaves)
     # coverage of the public API by the witness roots
